@@ -15,7 +15,7 @@ import gc
 import json
 import sys
 
-from simkit import flatten as F, fp as fpm, mon, rng as rngm, spec, universe as U
+from simkit import flatten as F, fp as fpm, locks, mon, rng as rngm, spec, universe as U
 from engines import common as C
 
 PROP = 'C13'
@@ -271,10 +271,13 @@ def _call(module, entry, text, full, ctx, budget=U.REF_BUDGET):
         except Exception as e:
             return {'err': 'entry:' + type(e).__name__}
         try:
-            v = fn(U.fresh_text(text), 0, full)
+            with locks.sut():
+                v = fn(U.fresh_text(text), 0, full)
             return fpm.outcome_fp('value', v, aliasing=False, messages=False)
         except mon.StepBudget:
             return {'err': 'nontermination'}
+        except locks.Deadlock:
+            return {'err': 'deadlock'}
         except MemoryError:
             return {'err': 'MemoryError'}
         except RecursionError:
